@@ -4,6 +4,7 @@ mvdrv <mode>: one request per line on stdin (`id<TAB>payload`), one answer per l
 -/
 import MambaVerif.Model.Wire
 import MambaVerif.Model.PyExpr
+import MambaVerif.Model.Ty
 
 open MV
 
@@ -46,6 +47,8 @@ def handle (mode : String) (payload : String) : String :=
         hexOfBytes (renderToks ts).toUTF8 ++ "\t" ++ parsed
       | none => "bad core"
     | none => "bad sexp"
+  | "tysup" => tySupRequest payload
+  | "tyunion" => tyUnionRequest payload
   | _ => "BADMODE"
 
 partial def loop (h : IO.FS.Stream) (out : IO.FS.Stream) (mode : String) : IO Unit := do
